@@ -1,5 +1,5 @@
 (** Property C02 — quantities are never silently wrapped, truncated or dropped. *)
-From Tx3 Require Import Base Tir Reduce PlutusData Compile Compile_proofs.
+From Tx3 Require Import Base Assets Assets_proofs Tir Reduce PlutusData Compile Compile_proofs.
 
 Theorem C02_u64_exact_or_error : forall z v, number_into_u64 z = Ok v -> v = z /\ (0 <= z < 2 ^ 64)%Z.
 Proof. exact number_into_u64_exact. Qed.
@@ -23,6 +23,13 @@ Proof. exact compile_value_negative_lovelace_refuted. Qed.
 Theorem C02_negative_native_refuted :
   exists p, length p = 28%nat /\ compile_value (EBytes p, EBytes [], ENumber (-5)) = Ok (VCoin 0).
 Proof. exact compile_value_negative_native_refuted. Qed.
+(** the balance equation of a template whose change output is written as
+    inputs + mint - burn - fees - (the other outputs): consumed plus minted value equals produced
+    plus burned value plus the fee, asset class by asset class, over unbounded integers *)
+Theorem C02_balance_equation : forall consumed mint burn fee others,
+  let change := a_sub (a_sub (a_sub (a_add consumed mint) burn) fee) others in
+  a_add consumed mint ≈ a_add (a_add (a_add change others) burn) fee.
+Proof. exact balance_preserved. Qed.
 
 Print Assumptions C02_u64_exact_or_error.
 Print Assumptions C02_u64_out_of_range_is_error.
@@ -32,3 +39,4 @@ Print Assumptions C02_native_exact_in_range.
 Print Assumptions C02_mint_exact_or_error.
 Print Assumptions C02_negative_lovelace_refuted.
 Print Assumptions C02_negative_native_refuted.
+Print Assumptions C02_balance_equation.
